@@ -128,6 +128,17 @@ class Script:
         self.ms = rng.randbytes(48)
         if shape.get("master"):
             self.ms = shape["master"]          # a resumed session: the master secret of an earlier connection, fresh randoms
+        if shape.get("rsa_line"):
+            # the key log names the PRE-master secret (`RSA <client_random> <pre-master>`, TLExport's own line form): the master
+            # secret is RFC 5246 8.1 / RFC 2246 8.1 / SSL 3.0 6.1 applied to it
+            self.pre = rng.randbytes(48)
+            cs = self.cr + self.sr
+            if version == "ssl3":
+                self.ms = prf_ssl3(self.pre, cs, 48)
+            elif version in ("tls10", "tls11"):
+                self.ms = prf10(self.pre, b"master secret", cs, 48)
+            else:
+                self.ms = p_hash(hashlib.sha384 if d["mac"] == "SHA384" else hashlib.sha256, self.pre, b"master secret" + cs, 48)
         if d["aead"]:
             mac_kb, ivlen = 0, (12 if d["algo"] == "CHACHA20" else 4)
         elif d["algo"] == "RC4":
@@ -157,6 +168,8 @@ class Script:
                    "cap": "CLIENT_TRAFFIC_SECRET_0", "sap": "SERVER_TRAFFIC_SECRET_0"}
             keys = ("chs", "shs", "cap", "sap") if self.shape.get("hs_secrets", True) else ("cap", "sap")
             return [f"{lab[k]} {self.cr.hex()} {self.sec[k].hex()}" for k in keys]
+        if self.shape.get("rsa_line"):
+            return [f"RSA {self.cr.hex()} {self.pre.hex()}"]
         return [f"CLIENT_RANDOM {self.cr.hex()} {self.ms.hex()}"]
 
     # ------------------------------------------------------------------ record protection
